@@ -45,7 +45,7 @@ func init() {
 	register(&Property{
 		ID:    "C01",
 		Title: "Layout always returns",
-		Count: counts(270*24, 270*400),
+		Count: counts(270*48, 270*400),
 		Rule: "case i uses algorithm cell i mod 270 (3 breakers x 2 layerers x 9 positioners x 5 routers), a graph from families F1-F11 " +
 			"(<= 40 nodes, a few deep/wide/300-node ones for linear cells; <= 14 nodes for the network simplex positioner), a random size mode " +
 			"(none/fixed/map all/map some/map none/zeros), spacings in {0, small, default, medium, large}, thoroughness in {default,0,1,7,100}; " +
